@@ -86,6 +86,7 @@ func syncCfgs(c *core.Ctx) []syncCfg {
 	mapOps := ops("Load", 1, "Load", 2, "Load", 0, "Store", 1, 1, "Store", 1, 2, "Store", 2, 1, "Store", 0, 1,
 		"LoadOrStore", 1, 3, "LoadOrStore", 2, 3, "LoadOrStore", 0, 3, "Delete", 1, "Delete", 2, "Delete", 0,
 		"Range", 0, "Range", 1, "RangeDel")
+	mapSmall := ops("Load", 1, "Store", 1, 1, "Store", 2, 1, "LoadOrStore", 1, 3, "Delete", 1, "Range", 0, "Range", 1, "RangeDel")
 	mapExt := ops("Load", 1, "Store", 1, 1, "Store", 2, 2, "LoadOrStore", 1, 3, "Delete", 2, "LoadAndDelete", 1, "LoadAndDelete", 0,
 		"Swap", 1, 2, "Swap", 2, 1, "Swap", 0, 1, "CompareAndSwap", 1, 1, "CompareAndSwap", 1, 2, "CompareAndSwap", 2, 1, "CompareAndDelete", 1, 2,
 		"CompareAndDelete", 2, 2, "Range", 0, "Range", 2, "Clear")
@@ -94,7 +95,8 @@ func syncCfgs(c *core.Ctx) []syncCfg {
 		{Prim: "RWMutex", MaxLen: pick(6, 7), Ops: ops("Lock", "Unlock", "RLock", "RUnlock"), Impl: true, Procs: 1},
 		{Prim: "WaitGroup", MaxLen: pick(5, 6), Ops: ops("Add", 1, "Add", 2, "Add", -1, "Add", -2, "Done", "Wait"), Impl: true, Procs: 4},
 		{Prim: "Once", MaxLen: pick(4, 5), Ops: ops("Do", 1, "Do", 2, "Do", 3, "Do", 4), Impl: true, Procs: 1},
-		{Prim: "Map", MaxLen: pick(4, 5), Ops: mapOps, Impl: true, Procs: 8},
+		{Prim: "Map", MaxLen: pick(3, 4), Ops: mapOps, Impl: true, Procs: 4},
+		{Prim: "Map", MaxLen: pick(4, 6), Ops: mapSmall, Impl: true, Procs: 4},
 		{Prim: "Pool", MaxLen: pick(5, 6), Ops: ops("SetNew", 1, "SetNew", 0, "Put", 1, "Put", 2, "Put", 0, "Get"), Impl: true, Procs: 4},
 		// the wider API of package sync: specification against the guard only
 		{Prim: "Mutex", MaxLen: pick(6, 8), Ops: ops("Lock", "Unlock", "TryLock"), Procs: 1},
@@ -329,12 +331,11 @@ func runSync(c *core.Ctx, pool *gjs.Pool) bool {
 	cfgs := syncCfgs(c)
 	params := paramsModule(c)
 	cfg := "SPECIFICATION Spec\nINVARIANT TypeOK\nINVARIANT NoEffect\nINVARIANT ModesAgree\nINVARIANT MutexInv\nINVARIANT RWInv\nINVARIANT WGInv\nINVARIANT OnceInv\nINVARIANT MapInv\nINVARIANT PoolInv\nINVARIANT Emit\nCHECK_DEADLOCK FALSE\n"
-	r, err := tlcx.Run(c, tlcx.Opts{Module: "SyncPrimsScen", Cfg: cfg, Workers: 8, Timeout: 25 * time.Minute, HeapMB: 6144,
+	r, err := tlcx.Run(c, tlcx.Opts{Module: "SyncPrimsScen", Cfg: cfg, Workers: 2, Timeout: 25 * time.Minute, HeapMB: 4096,
 		Files: map[string]string{"C13Params.tla": params}})
 	if !tlcx.MustComplete(c, r, err, "SyncPrimsScen") {
 		return false
 	}
-	c.Phase("sync_tlc")
 	preds := make([]map[string]*pred, len(cfgs))
 	for i := range cfgs {
 		cf := &cfgs[i]
@@ -384,6 +385,12 @@ func runSync(c *core.Ctx, pool *gjs.Pool) bool {
 			c.Infra(fmt.Errorf("SyncPrimsScen emitted %d histories for configuration %d (%s), want %d", len(m), i+1, cf.Prim, want))
 			return false
 		}
+	}
+	if corrupt("sync") {
+		// non-vacuity demonstration: falsify ONE predicted outcome of the replacement
+		// (Mutex: first step of the all-Lock history "returns" -> "panics")
+		k := strings.TrimSuffix(strings.Repeat("1.", cfgs[0].MaxLen), ".")
+		preds[0][k].impl[0][0] = "1"
 	}
 	col := newCollector()
 	type result struct {
@@ -452,7 +459,6 @@ func runSync(c *core.Ctx, pool *gjs.Pool) bool {
 	if c.InfraErr != nil {
 		return false
 	}
-	c.Phase("sync_exec")
 	evals, progs, traces := 0, 0, 0
 	sampled := 0
 	for i := range cfgs {
